@@ -711,6 +711,271 @@ let wf_cmd (args : string list) : string =
   | ["end"] -> "ok"
   | _ -> "bad-command"
 
+(* ---- E3 BEGIN (controlled interleavings: trace validation and exhaustive exploration of the
+   extracted pipeline LTS, Conc/Pipeline.v) ---- *)
+let e3_kv (s : string) : (string * string) list =
+  List.filter_map (fun kv -> match String.index_opt kv '=' with
+      | Some i -> Some (String.sub kv 0 i, String.sub kv (i + 1) (String.length kv - i - 1))
+      | None -> None) (String.split_on_char ',' s)
+let e3_int kvs k d = match List.assoc_opt k kvs with Some v -> int_of_string v | None -> d
+let e3_cfg kvs = { c_slots = nat_of_int (e3_int kvs "slots" 8); c_permits = nat_of_int (e3_int kvs "permits" 7);
+                   c_memlimit = nat_of_int (e3_int kvs "mem" 2); c_l0limit = nat_of_int (e3_int kvs "l0" 1000) }
+
+let e3_actor_of (a : string) : actor =
+  match a.[0] with
+  | 'c' -> ACommit (nat_of_int (int_of_string (String.sub a 1 (String.length a - 1))))
+  | 'r' -> AReader (nat_of_int (int_of_string (String.sub a 1 (String.length a - 1))))
+  | 'F' -> AFlush | 'L' -> ALevel | 'X' -> ACloser | _ -> AMain
+let e3_actor_str = function
+  | ACommit i -> "c" ^ string_of_int (int_of_nat i) | AReader i -> "r" ^ string_of_int (int_of_nat i)
+  | AFlush -> "F" | ALevel -> "L" | ACloser -> "X" | AMain -> "M"
+
+let e3_label_of (name : string) (a : int) (b : int) : label option =
+  let n = nat_of_int in
+  match name with
+  | "txn.loaded" -> Some (LTxnLoaded (n a)) | "txn.registered" -> Some (LTxnRegistered (n a))
+  | "commit.enter" -> Some (LEnter (n b))
+  | "stall.registered" -> Some LStallRegistered | "stall.counted" -> Some (LStallCounted (n a, n b))
+  | "stall.wait" -> Some LStallWait | "commit.stall_ok" -> Some LStallOk
+  | "commit.sem_acquired" -> Some LSemAcquired | "commit.want_lock" -> Some LWantLock
+  | "commit.locked" -> Some LLocked | "commit.checked" -> Some LChecked
+  | "commit.seq_allocated" -> Some (LSeqAllocated (n a, n b)) | "commit.oracle_published" -> Some LOraclePublished
+  | "enq.loaded" -> Some (LEnqLoaded (n a, n b)) | "enq.full" -> Some LEnqFull | "enq.spin" -> Some LEnqSpin
+  | "enq.stored" -> Some LEnqStored | "enq.done" -> Some LEnqDone | "commit.enqueued" -> Some LEnqueued
+  | "commit.wal_failed" -> Some LWalFailed | "commit.fail_completed" -> Some LFailCompleted
+  | "commit.marked" -> Some LMarked | "commit.unlocked" -> Some LUnlocked
+  | "mem.insert" -> Some (LMemInsert (n a)) | "apply.arena_full" -> Some LArenaFull | "apply.rotated" -> Some LRotated
+  | "task.wake_mem" -> Some LWakeMem | "apply.woke" -> Some LApplyWoke
+  | "commit.after_apply" -> Some (LAfterApply (b = 1))
+  | "deq.loaded" -> Some (LDeqLoaded (n a, n b)) | "deq.slot" -> Some (LDeqSlot (n a, b = 1))
+  | "deq.checked" -> Some (LDeqChecked (n a, b = 1)) | "deq.cas_ok" -> Some LDeqCasOk | "deq.cas_fail" -> Some LDeqCasFail
+  | "deq.cleared" -> Some LDeqCleared | "pub.deq" -> Some (LPubDeq (n a, n b))
+  | "vis.loaded" -> Some (LVisLoaded (n a, n b)) | "vis.skip" -> Some LVisSkip | "vis.cas_ok" -> Some LVisCasOk
+  | "vis.cas_fail" -> Some LVisCasFail | "pub.completed" -> Some LPubCompleted | "pub.exit" -> Some LPubExit
+  | "commit.published" -> Some LPublished
+  | "ret" -> Some (LRet (match a with 0 -> ResOk | 1 -> ResErr | _ -> ResPanic))
+  | "obs" -> Some (LObs (n a, (match b with 0 -> OFull | 1 -> ONone | _ -> OPartial)))
+  | "stall.signal" -> Some (LSignal (a = 1))
+  | "task.mem.wait" -> Some LMemWait | "task.mem.woken" -> Some LMemWoken | "task.mem.running" -> Some LMemRunning
+  | "task.mem.flushed" -> Some LMemFlushed | "task.mem.nopending" -> Some LMemNoPending | "task.mem.error" -> Some LMemError
+  | "task.mem.notified_level" -> Some LMemNotifiedLevel | "task.mem.idle" -> Some LMemIdle | "task.mem.exit" -> Some LMemExit
+  | "task.level.wait" -> Some LLevelWait | "task.level.woken" -> Some LLevelWoken | "task.level.running" -> Some LLevelRunning
+  | "task.level.done" -> Some (LLevelDone (n a)) | "task.level.error" -> Some LLevelError
+  | "task.level.idle" -> Some LLevelIdle | "task.level.exit" -> Some LLevelExit
+  | "task.wake_level" -> Some LWakeLevel
+  | "close.start" -> Some LCloseStart | "close.pipe_shutdown" -> Some LClosePipeDown
+  | "task.stop.flag" -> Some LStopFlag | "task.stop.notified" -> Some LStopNotified | "task.stop.poll" -> Some LStopPoll
+  | "task.stop.join" -> Some LStopJoin | "close.tasks_stopped" -> Some LCloseTasksStopped
+  | "close.synced" -> Some LCloseSynced | "close.end" -> Some LCloseEnd
+  | _ -> None
+
+let e3_label_str (l : label) : string =
+  let i = int_of_nat in
+  let p name a b = Printf.sprintf "%s,%d,%d" name a b in
+  match l with
+  | LTxnLoaded h -> p "txn.loaded" (i h) 0 | LTxnRegistered h -> p "txn.registered" (i h) 0
+  | LEnter c -> p "commit.enter" 0 (i c)
+  | LStallRegistered -> p "stall.registered" 0 0 | LStallCounted (a, b) -> p "stall.counted" (i a) (i b)
+  | LStallWait -> p "stall.wait" 0 0 | LStallOk -> p "commit.stall_ok" 0 0 | LSemAcquired -> p "commit.sem_acquired" 0 0
+  | LWantLock -> p "commit.want_lock" 0 0 | LLocked -> p "commit.locked" 0 0 | LChecked -> p "commit.checked" 0 0
+  | LSeqAllocated (a, b) -> p "commit.seq_allocated" (i a) (i b) | LOraclePublished -> p "commit.oracle_published" 0 0
+  | LEnqLoaded (a, b) -> p "enq.loaded" (i a) (i b) | LEnqFull -> p "enq.full" 0 0 | LEnqSpin -> p "enq.spin" 0 0
+  | LEnqStored -> p "enq.stored" 0 0 | LEnqDone -> p "enq.done" 0 0 | LEnqueued -> p "commit.enqueued" 0 0
+  | LWalFailed -> p "commit.wal_failed" 0 0 | LFailCompleted -> p "commit.fail_completed" 0 0
+  | LMarked -> p "commit.marked" 0 0 | LUnlocked -> p "commit.unlocked" 0 0
+  | LMemInsert a -> p "mem.insert" (i a) 0 | LArenaFull -> p "apply.arena_full" 0 0 | LRotated -> p "apply.rotated" 0 0
+  | LWakeMem -> p "task.wake_mem" 0 0 | LApplyWoke -> p "apply.woke" 0 0
+  | LAfterApply e -> p "commit.after_apply" 0 (if e then 1 else 0)
+  | LDeqLoaded (a, b) -> p "deq.loaded" (i a) (i b) | LDeqSlot (a, b) -> p "deq.slot" (i a) (if b then 1 else 0)
+  | LDeqChecked (a, b) -> p "deq.checked" (i a) (if b then 1 else 0) | LDeqCasOk -> p "deq.cas_ok" 0 0
+  | LDeqCasFail -> p "deq.cas_fail" 0 0 | LDeqCleared -> p "deq.cleared" 0 0 | LPubDeq (a, b) -> p "pub.deq" (i a) (i b)
+  | LVisLoaded (a, b) -> p "vis.loaded" (i a) (i b) | LVisSkip -> p "vis.skip" 0 0 | LVisCasOk -> p "vis.cas_ok" 0 0
+  | LVisCasFail -> p "vis.cas_fail" 0 0 | LPubCompleted -> p "pub.completed" 0 0 | LPubExit -> p "pub.exit" 0 0
+  | LPublished -> p "commit.published" 0 0
+  | LRet r -> p "ret" (match r with ResOk -> 0 | ResErr -> 1 | ResPanic -> 2) 0
+  | LObs (c, k) -> p "obs" (i c) (match k with OFull -> 0 | ONone -> 1 | OPartial -> 2)
+  | LSignal b -> p "stall.signal" (if b then 1 else 0) 0
+  | LMemWait -> p "task.mem.wait" 0 0 | LMemWoken -> p "task.mem.woken" 0 0 | LMemRunning -> p "task.mem.running" 0 0
+  | LMemFlushed -> p "task.mem.flushed" 0 0 | LMemNoPending -> p "task.mem.nopending" 0 0 | LMemError -> p "task.mem.error" 0 0
+  | LMemNotifiedLevel -> p "task.mem.notified_level" 0 0 | LMemIdle -> p "task.mem.idle" 0 0 | LMemExit -> p "task.mem.exit" 0 0
+  | LLevelWait -> p "task.level.wait" 0 0 | LLevelWoken -> p "task.level.woken" 0 0 | LLevelRunning -> p "task.level.running" 0 0
+  | LLevelDone a -> p "task.level.done" (i a) 0 | LLevelError -> p "task.level.error" 0 0 | LLevelIdle -> p "task.level.idle" 0 0
+  | LLevelExit -> p "task.level.exit" 0 0 | LWakeLevel -> p "task.wake_level" 0 0
+  | LCloseStart -> p "close.start" 0 0 | LClosePipeDown -> p "close.pipe_shutdown" 0 0 | LStopFlag -> p "task.stop.flag" 0 0
+  | LStopNotified -> p "task.stop.notified" 0 0 | LStopPoll -> p "task.stop.poll" 0 0 | LStopJoin -> p "task.stop.join" 0 0
+  | LCloseTasksStopped -> p "close.tasks_stopped" 0 0 | LCloseSynced -> p "close.synced" 0 0 | LCloseEnd -> p "close.end" 0 0
+
+let e3_trace_str (tr : (actor * label) list) : string =
+  String.concat ";" (List.map (fun (a, l) -> e3_actor_str a ^ "," ^ e3_label_str l) tr)
+
+let e3_pc_str (s : plstate) (a : actor) : string =
+  match a with
+  | ACommit i -> (match List.nth_opt s.thrs (int_of_nat i) with
+      | Some t -> (match t.t_pc with
+          | CIdle -> "Idle" | CEntered -> "Entered" | CStallReg _ -> "StallReg" | CStallCounted (_, b) -> if b then "StallCounted(stalled)" else "StallCounted(free)"
+          | CStallBlocked _ -> "StallBlocked" | CStallOk -> "StallOk" | CHasPermit -> "HasPermit" | CWantLock -> "WantLock"
+          | CLocked -> "Locked" | CChecked -> "Checked" | CAlloc -> "Alloc" | COrPub -> "OrPub" | CEnqLoaded -> "EnqLoaded"
+          | CEnqFullSeen -> "EnqFullSeen" | CEnqPanic -> "EnqPanic" | CEnqStored -> "EnqStored" | CEnqDone -> "EnqDone"
+          | CEnqueued -> "Enqueued" | CWalFailed -> "WalFailed" | CFailDoneLocked -> "FailDoneLocked" | CMarkedLocked -> "MarkedLocked"
+          | CApplying _ -> "Applying" | CArenaFull -> "ArenaFull" | CRotated -> "Rotated" | CWokeMem -> "WokeMem" | CApplied -> "Applied"
+          | CApplyFailed -> "ApplyFailed" | CFailDone -> "FailDone" | CPubTop -> "PubTop" | CPubHold _ -> "PubHold"
+          | CDeqLoaded _ -> "DeqLoaded" | CDeqSlot _ -> "DeqSlot" | CDeqChecked _ -> "DeqChecked" | CDeqNone -> "DeqNone"
+          | CDeqWon _ -> "DeqWon" | CDeqOwned _ -> "DeqOwned" | CVisTop _ -> "VisTop" | CVisLoaded _ -> "VisLoaded"
+          | CVisDone _ -> "VisDone" | CPubExit -> "PubExit" | CWaitDone -> "WaitDone" | CRetErr -> "RetErr" | CReturned _ -> "Returned")
+      | None -> "no-such-thread")
+  | _ -> "-"
+
+(* e3 validate <params> <trace>: every event must be an enabled transition of the LTS from the
+   current model state; the recorded horizon must equal the model's after every event; the safety
+   invariants must hold in every state along the trace *)
+let e3_validate (params : string) (trace : string) : string =
+  let kvs = e3_kv params in
+  let c = e3_cfg kvs in
+  let v0 = e3_int kvs "v0" 0 in
+  let s0 = pinit c (nat_of_int (e3_int kvs "nthr" 1)) (nat_of_int (e3_int kvs "nrdr" 0)) (nat_of_int v0) in
+  let evs = List.filter (fun x -> x <> "") (String.split_on_char ';' trace) in
+  let s = ref s0 and k = ref 0 and bad = ref "" and maxfl = ref 0 and nuaf = ref 0 and skipped = ref 0 and skipped_failed_obs = ref 0 and obs_mismatch = ref 0 and first_mismatch = ref "" in
+  let vis_prev = ref v0 in
+  (try
+     List.iter (fun ev ->
+         (match String.split_on_char ',' ev with
+          | a :: name :: x :: y :: rest ->
+            (match e3_label_of name (int_of_string x) (int_of_string y) with
+             | None -> incr skipped
+             | Some (LObs (cth, _)) when
+                 (* theorem read_all_or_nothing speaks about commits that did not fail: the observation of a
+                    failed commit's batch (possibly partially applied, C15) is not compared *)
+                 (match List.nth_opt !s.thrs (int_of_nat cth) with
+                  | Some t -> (match t.t_my with
+                      | Some p -> (match List.nth_opt !s.qlog (int_of_nat p) with Some b -> b.b_fail | None -> false)
+                      | None -> false)
+                  | None -> false) -> incr skipped_failed_obs
+             | Some l ->
+               let act = e3_actor_of a in
+               (match pstep c !s act l with
+                | None when (match l with LObs _ -> true | _ -> false) ->
+                  (* a probe observation that differs from the memtable model: recorded, the replay goes on
+                     (observations do not change the state) *)
+                  incr obs_mismatch;
+                  if !first_mismatch = "" then first_mismatch := Printf.sprintf "%d:%s" !k ev
+                | None ->
+                  bad := Printf.sprintf "reject at=%d event=%s pc=%s" !k ev (e3_pc_str !s act); raise Exit
+                | Some s' ->
+                  s := s';
+                  let mv = int_of_nat s'.visible in
+                  if mv < !vis_prev then (bad := Printf.sprintf "invariant at=%d event=%s which=visible-decreased" !k ev; raise Exit);
+                  vis_prev := mv;
+                  (match rest with
+                   | v :: _ when v <> "" && int_of_string v <> mv ->
+                     bad := Printf.sprintf "reject at=%d event=%s which=visible impl=%s model=%d" !k ev v mv; raise Exit
+                   | _ -> ());
+                  if not (safe_ok (nat_of_int v0) s') then
+                    (bad := Printf.sprintf "invariant at=%d event=%s which=safe_ok" !k ev; raise Exit);
+                  let fl = int_of_nat (in_flight s') in
+                  if fl > !maxfl then maxfl := fl))
+          | _ -> bad := Printf.sprintf "reject at=%d event=%s which=syntax" !k ev; raise Exit);
+         incr k) evs
+   with Exit -> ());
+  if !s.uaf then nuaf := 1;
+  if !bad <> "" then !bad
+  else
+    let e_all = { e_cnts = []; e_walfail = true; e_applyfail = true; e_rotate = true; e_l0s = [O]; e_close = false;
+                  e_conflict = true; e_bgfail = true } in
+    Printf.sprintf "ok events=%d skipped=%d failed_obs=%d obs_mismatch=%d first_mismatch=%s dead=%d visible=%d head=%d tail=%d max_in_flight=%d uaf=%d panics=%d returned=%d"
+      !k !skipped !skipped_failed_obs !obs_mismatch (if !first_mismatch = "" then "-" else !first_mismatch) (if deadlocked c e_all !s then 1 else 0) (int_of_nat !s.visible) (int_of_nat !s.qhead) (int_of_nat !s.qtail) !maxfl !nuaf
+      (List.length (List.filter (fun t -> t.t_pc = CReturned ResPanic) !s.thrs))
+      (List.length (List.filter (fun t -> match t.t_pc with CReturned _ -> true | _ -> false) !s.thrs))
+
+(* e3 explore <params>: exhaustive exploration of a small instance with a visited set.  Reports the
+   number of states and, for each statement, a shortest-found counterexample trace or "-". *)
+let e3_explore (params : string) : string =
+  let kvs = e3_kv params in
+  let c = e3_cfg kvs in
+  let cnts = match List.assoc_opt "cnts" kvs with
+    | Some v -> List.map int_of_string (String.split_on_char '/' v) | None -> [1] in
+  let flag k = e3_int kvs k 0 = 1 in
+  let e = { e_cnts = List.map nat_of_int cnts; e_walfail = flag "walfail"; e_applyfail = flag "applyfail";
+            e_rotate = flag "rotate";
+            e_l0s = (match List.assoc_opt "l0s" kvs with Some v -> List.map (fun x -> nat_of_int (int_of_string x)) (String.split_on_char '/' v) | None -> [O]);
+            e_close = flag "close"; e_conflict = flag "conflict"; e_bgfail = flag "bgfail" } in
+  let maxst = e3_int kvs "maxstates" 2000000 in
+  let v0 = nat_of_int 0 in
+  let s0 = pinit c (nat_of_int (List.length cnts)) (nat_of_int (e3_int kvs "rdrs" 0)) v0 in
+  let key (s : plstate) = Marshal.to_string s [Marshal.No_sharing] in
+  (* id -> (state, parent id, event) *)
+  let tbl : (string, int) Hashtbl.t = Hashtbl.create 100000 in
+  let states = ref (Array.make 1024 (s0, -1, (AMain, LWakeLevel))) in
+  let n = ref 0 in
+  let add s par ev =
+    let k = key s in
+    match Hashtbl.find_opt tbl k with
+    | Some id -> (id, false)
+    | None ->
+      if !n >= Array.length !states then begin
+        let a = Array.make (2 * !n) !states.(0) in Array.blit !states 0 a 0 !n; states := a end;
+      !states.(!n) <- (s, par, ev); Hashtbl.add tbl k !n; incr n; (!n - 1, true) in
+  let path id =
+    let rec go id acc = if id <= 0 then acc else let (_, par, ev) = !states.(id) in go par (ev :: acc) in
+    e3_trace_str (go id []) in
+  ignore (add s0 (-1) (AMain, LWakeLevel));
+  let first = Hashtbl.create 8 in
+  let note k id = if not (Hashtbl.mem first k) then Hashtbl.add first k id in
+  let progress_edges : (int, int list) Hashtbl.t = Hashtbl.create 100000 in
+  let edges = ref 0 and truncated = ref false in
+  let i = ref 0 in
+  while !i < !n && not !truncated do
+    let (s, _, _) = !states.(!i) in
+    if not (safe_ok v0 s) then note "safe" !i;
+    if not (no_overflow_ok c s) then note "overflow" !i;
+    if s.uaf then note "uaf" !i;
+    if deadlocked c e s then note "deadlock" !i;
+    (* an overflowed or use-after-free state is not expanded further: what follows is not of interest *)
+    let sc = succs c e s in
+    let pe = ref [] in
+    List.iter (fun ((a, l), s') ->
+        incr edges;
+        let (id, _) = add s' !i (a, l) in
+        if not (env_label a l) && not (stutter l) then pe := id :: !pe) sc;
+    Hashtbl.replace progress_edges !i !pe;
+    if !n > maxst then truncated := true;
+    incr i
+  done;
+  (* cycle among progress steps (test of `terminates`): iterative DFS with colours *)
+  let colour = Array.make !n 0 in
+  let cyc = ref (-1) in
+  let rec_stack = Stack.create () in
+  for r = 0 to !n - 1 do
+    if colour.(r) = 0 && !cyc < 0 then begin
+      Stack.push (r, ref (try Hashtbl.find progress_edges r with Not_found -> [])) rec_stack;
+      colour.(r) <- 1;
+      while not (Stack.is_empty rec_stack) && !cyc < 0 do
+        let (u, rest) = Stack.top rec_stack in
+        match !rest with
+        | [] -> colour.(u) <- 2; ignore (Stack.pop rec_stack)
+        | v :: tl ->
+          rest := tl;
+          if colour.(v) = 1 then cyc := v
+          else if colour.(v) = 0 then begin
+            colour.(v) <- 1;
+            Stack.push (v, ref (try Hashtbl.find progress_edges v with Not_found -> [])) rec_stack
+          end
+      done;
+      Stack.clear rec_stack
+    end
+  done;
+  let show k = match Hashtbl.find_opt first k with Some id -> path id | None -> "-" in
+  Printf.sprintf "states=%d edges=%d truncated=%d safe=%s overflow=%s uaf=%s deadlock=%s cycle=%s"
+    !n !edges (if !truncated then 1 else 0) (show "safe") (show "overflow") (show "uaf") (show "deadlock")
+    (if !cyc >= 0 then path !cyc else "-")
+
+let e3_cmd (toks : string list) : string =
+  match toks with
+  | ["validate"; params; trace] -> e3_validate params trace
+  | ["validate"; params] -> e3_validate params ""
+  | ["explore"; params] -> e3_explore params
+  | _ -> "bad-command"
+(* ---- E3 END ---- *)
+
 let () =
   try
     while true do
@@ -730,6 +995,7 @@ let () =
             | "cs" :: rest -> cs_cmd rest
             | "ri" :: rest -> ri_cmd rest
             | "lk" :: rest -> lk_cmd rest
+            | "e3" :: rest -> e3_cmd rest
             | "rg" :: rest -> rg_cmd rest
             | _ -> "bad-command"
           with
